@@ -5,7 +5,7 @@ import Rtsp.Proofs.Sdp.Lines
 namespace Rtsp.Sdp
 
 /-- a word: no white space -/
-def NoSp (w : Str) : Prop := ∀ c ∈ w, isSpace c = false
+abbrev NoSp (w : Str) : Prop := ∀ c ∈ w, isSpace c = false
 
 theorem fields_sp (rest : Str) : fields (32 :: rest) = fields rest := by
   simp [fields, isSpace]
